@@ -17,6 +17,7 @@ package fileutils
 //@   requires r != nil
 //@   return [without_a_read_error_the_text_stops_only_at_a_semicolon_that_ends_a_complete_line] err == nil ==> !isPrefix && lastChar == 59
 //@   loop 1
+//@     complete [all_iterations_no_early_exit]
 //@     invariant [nothing_read_yet_or_only_empty_lines] len(ln) == 0 ==> lastChar == 48
 //@     invariant [lastChar_is_the_last_non_blank_byte_of_the_accumulated_text] len(ln) > 0 ==> (exists p int :: {ln[p]} 0 <= p && p < len(ln) && lastChar == ln[p] && (p == 0 || !blank(ln[p])) && (forall q int :: {ln[q]} p < q && q < len(ln) ==> blank(ln[q])))
 //@   loop 2
